@@ -10,7 +10,7 @@ VARIABLES kind, owner, classes, place
 (* where the listing is served: by the owner's host under its own id ("own"); by another host, without an
    id of its own, named by URL in the owner's document ("foreign_anon"); or the same reached through a
    redirect from the owner's host ("redirect_anon").  Entries embedded there are that other host's word. *)
-Places == {"own", "foreign_anon", "redirect_anon"}
+Places == {"own", "foreign_anon", "redirect_anon", "inline_anon"}   \* inline_anon: embedded in the owner's document, without an id
 
 Init == /\ kind \in {"outbox", "replies"} /\ owner \in {"path", "query"}
         /\ classes \in UNION {[1..n -> IF kind = "outbox" THEN OutboxClasses ELSE ReplyClasses] : n \in 0..MaxLen}
